@@ -14,7 +14,12 @@ Inductive ev :=
 (* summary of a free-running (un-gated) stress run: successful acquisitions, Unlock calls that
    returned, and the largest number of goroutines that were between "acquire returned" and
    "Unlock called" at the same instant (critical-section counter kept by the harness) *)
-| Free (acq rel maxin : N).
+| Free (acq rel maxin : N)
+(* summary of a free-running "renewal race" run with a very short lease (every Unlock aimed at the
+   background lease refresh): a lease may lapse under load there, which is outside C01's premise,
+   so overlaps are not part of the summary; judged in Coq: every acquisition was released (no
+   Unlock panicked).  The residue checks of that stream are direct observations of the harness. *)
+| FreeShort (acq rel : N).
 
 Record case := mkCase {
   c_id : N;
@@ -59,6 +64,7 @@ Fixpoint replay (nt : nat) (s : state) (evs : list ev) (i : nat) : state + nat :
   | E l :: r => match step s l with Some s' => replay nt s' r (S i) | None => inr i end
   | Snap lks recp bl :: r => if snap_ok nt s lks recp bl then replay nt s r (S i) else inr i
   | Free a rl m :: r => if free_ok a rl m then replay nt s r (S i) else inr i
+  | FreeShort a rl :: r => if N.eqb a rl then replay nt s r (S i) else inr i
   end.
 
 Definition pc_idle (p : pc) : bool := match p with Idle => true | _ => false end.
@@ -77,6 +83,7 @@ Fixpoint max_holders (nl : nat) (s : state) (evs : list ev) (m : nat) : nat :=
   | E l :: r => match step s l with Some s' => max_holders nl s' r m' | None => m' end
   | Snap _ _ _ :: r => max_holders nl s r m'
   | Free _ _ _ :: r => max_holders nl s r m'
+  | FreeShort _ _ :: r => max_holders nl s r m'
   end.
 
 Definition check_trace (c : case) : bool :=
